@@ -188,3 +188,38 @@ Definition miller_model (ys : list Z) (n : Z) : option bool :=
     let q := powmod a t n in
     if (q =? 1) || (q =? n - 1) then Some true else Some (miller_squares (Z.to_nat s) s q n)
   end.
+
+(* ---------------------------------------------------------------- complete factorisation on the scripted walk
+   set(Lf, Lo, n, loops) and divisors(L, n) with iffactorprime_s as the factor finder: the script is threaded through the
+   successive calls in Coq (no glue outside the extracted code).  Result: (factor list, complete flag, rest of the script). *)
+Section ScriptedSet.
+  Variable isprime : Z -> bool.
+  Fixpoint set2_loop_s (fuel loopfuel restarts rhofuel : nat) (ys : list Z) (nn thr : Z) : option (list (Z * Z) * bool * list Z) :=
+    match fuel with
+    | O => None
+    | S f =>
+      if nn >? 1 then
+        match iffactorprime_s isprime loopfuel restarts rhofuel ys nn thr with
+        | None => None
+        | Some (g0, ys', _) =>
+          let g := if g0 =? 1 then nn else g0 in
+          match strip (S fuel) g (divexact nn g) 0 with
+          | None => None
+          | Some (nn', c) =>
+            match set2_loop_s f loopfuel restarts rhofuel ys' nn' thr with
+            | None => None
+            | Some (rest, fl, ys'') => Some ((g, c) :: rest, if g0 =? 1 then false else fl, ys'')
+            end
+          end
+        end
+      else Some ([], true, ys)
+    end.
+  Definition set2_s (fuel loopfuel restarts rhofuel : nat) (ys : list Z) (n thr : Z) : option (list (Z * Z) * bool * list Z) :=
+    set2_loop_s fuel loopfuel restarts rhofuel ys (if n <? 0 then - n else n) thr.
+  (* divisors(L, n) = set(Lf, Le, n) [loops = 0] then divisors(L, Lf, Le) *)
+  Definition divisors_of_s (fuel loopfuel restarts rhofuel : nat) (ys : list Z) (n : Z) : option (list Z * list Z) :=
+    match set2_s fuel loopfuel restarts rhofuel ys n 0 with
+    | None => None
+    | Some (l, _, ys') => Some (divisors_model l, ys')
+    end.
+End ScriptedSet.
